@@ -617,6 +617,10 @@ class Sim:
         """Run pending handlers on task t (main thread of its process).  True if any ran."""
         p = t.proc
         ran = False
+        if getattr(t, "fork_zero", False):
+            # fork by re-entry: this child is still re-executing the code that, in a real child, ran in the parent BEFORE fork().  The
+            # process only begins to exist when its fork() returns 0; a signal sent to it meanwhile stays pending until then
+            return False
         while p.pending and not p.stopped:
             sig = p.pending.pop(0)
             h = p.handlers.get(sig, SIG_DFL)
